@@ -86,11 +86,12 @@ META = dict(
         "exception messages are not compared, only classes",
     ],
     bounds=dict(
-        quick="collections: all 65 states x C54 quick alphabet (args <=2) + 2-step histories; rows: 9 metadata shapes x 6 data "
-        "shapes x ~150 ops; results: 7 sources x 15 row lists x 17 filter chains x histories <=2; processors: valid + "
-        "single-character-mutated stamps, decimal scales 0-6; distill depth 2; tuplegetter index tuples <=3; anon histories <=3",
-        thorough="collections: C54 thorough alphabet (args <=3, two-argument forms); results: 40 row lists, all histories <=2 "
-        "and core histories <=3; anon histories <=4; tuplegetter with negative indexes",
+        quick="collections: all 65 states x C54 quick alphabet (args <=2) + 2-step histories from 3 states; rows: 9 metadata shapes x 7 "
+        "data shapes x 5 processor shapes x ~150 ops; results: 8 sources x 18 row lists x 19 filter chains x histories <=2; processors: "
+        "valid + single-character-mutated stamps, decimal scales 0-6; distill depth 2; tuplegetter index tuples <=3; anon histories <=3",
+        thorough="collections: C54 thorough alphabet (args <=3, two-argument forms), 2-step histories from 17 states; results: 51 row "
+        "lists, all 22x22 histories of length 2 (iter/scalar/cursor) and 8^3 core histories of length 3 (iter/scalar); anon histories <=4; "
+        "tuplegetter with negative indexes; unique_list lists <=4; immutabledict.union with <=3 arguments",
     ),
 )
 SHARD_TIMEOUT = dict(quick=600, thorough=2400)
@@ -128,7 +129,7 @@ def shards(tier, seed):
         out.append(("row", tuple(range(m, min(m + per, N_ROW_META)))))
     for src in RESULT_FULL + RESULT_LIGHT:
         if q:
-            nparts = dict(iter=2, logfn=2, scalar=1, cursor=3).get(src, 1)
+            nparts = dict(iter=2, scalar=1, cursor=3).get(src, 1)
         else:
             nparts = dict(cursor=10, scalar=6).get(src, 10 if src in RESULT_FULL else 3)
         for part in range(nparts):
@@ -1377,10 +1378,10 @@ def run_result(shard, tier, only):
         hists = [(o,) for o in RES_OPS]
         triples = []
         if tier == "quick":
-            if src in RESULT_FULL:
+            if src in RESULT_FULL and src != "logfn":
                 hists += [(a, b) for a in RES_CORE for b in RES_SECOND]
         else:
-            if src in RESULT_FULL:
+            if src in RESULT_FULL and src != "logfn":
                 hists += [(a, b) for a in RES_OPS for b in RES_OPS]
             else:
                 hists += [(a, b) for a in RES_CORE for b in RES_SECOND]
